@@ -16,12 +16,14 @@ class TimedMutex : public Mutex<Impl> {
 
   template <typename Rep, typename Period>
   bool try_lock_for(const std::chrono::duration<Rep, Period>& timeout_duration) {
+    YACLIB_VERIF_SYNC(kTryLockFor);
     YACLIB_INJECT_FAULT(auto r = Impl::try_lock_for(timeout_duration));
     return r;
   }
 
   template <typename Clock, typename Duration>
   bool try_lock_until(const std::chrono::time_point<Clock, Duration>& timeout_time) {
+    YACLIB_VERIF_SYNC(kTryLockFor);
     YACLIB_INJECT_FAULT(auto r = Impl::try_lock_until(timeout_time));
     return r;
   }
